@@ -150,6 +150,16 @@ CHECKS = [
         "repeated fragments are value/history properties and are not decided.",
         "note": BASE_NOTE,
     },
+    {
+        "id": "C05",
+        "technique": "static analysis: JSON typing of produced values (mypy types + syntactic provenance), purity/effect analysis over the decode path's call graph, stride-vs-table agreement, guard rule for ratios, dispatch exhaustiveness",
+        "text": "Decides that no value a payload parser (or helper) places in a returned dict has a non-JSON type; that nothing reachable from "
+        "Packet()/Message() reads a clock/RNG/environment, declares global state or writes outside the frame's own memo fields (so decoding "
+        "cannot depend on prior packets or caches); that each array-capable parser steps by 2 x the element length of CODES_WITH_ARRAYS; that "
+        "every x/200 ratio is guarded at 1.0; and that every schema code has a registered parser. Does not decide element-wise equality of "
+        "values nor physical ranges beyond the guards.",
+        "note": BASE_NOTE,
+    },
 ]
 
 NOT_APPLICABLE = [
